@@ -1365,7 +1365,8 @@ fn resolve_types_and_aliases(
     while pass_count < max_passes && !(types.is_resolved() && aliases.is_resolved()) {
         pass_count += 1;
 
-        let scope = Rc::get_mut(scope_rc).expect("scope should be unique during resolution");
+        // definitions analyzed earlier (eg: policies) may hold on to the scope
+        let scope = Rc::make_mut(scope_rc);
 
         for type_def in types.iter() {
             scope.track_type_def(type_def);
